@@ -197,6 +197,114 @@ theorem refine_known_collection {v w : Value} {cs : List RefineCall} {least most
 
 end Any
 
+/-! ## the converse: a chain of length constraints and `NotNull()` that SOME possible length satisfies is accepted -/
+
+/-- `NotNull()` or one of the three length calls -/
+def isLenOrNotNull : RefineCall → Bool
+  | .notNull => true
+  | c => isLenCall c
+
+/-- the invariant of the converse direction: the witness length `l` is possible and still inside the recorded range,
+and the record is not "definitely null" -/
+def KWit (least most l : Nat) (b : Builder) : Prop :=
+  b.isDyn = false ∧ b.orig.isKnown = true ∧ b.orig.isNull = false ∧ knownLength b.orig = .ok (least, most) ∧
+  least ≤ l ∧ l ≤ most ∧ ∃ nl lo hi, b.wip = .coll nl lo hi ∧ nl ≠ .t ∧ lo ≤ (l : Int) ∧ (l : Int) ≤ hi
+
+theorem lenLower_wit {least most l : Nat} {b : Builder} {n : Int} (hI : KWit least most l b) (hn : n ≤ (l : Int)) :
+    ∃ b', stepLenLower b n = .ok b' ∧ KWit least most l b' := by
+  obtain ⟨hd, hk, hnl, hl, h1, h2, nl, lo, hi, hw, hnt, h3, h4⟩ := hI
+  unfold stepLenLower
+  rw [hw]
+  simp only [hk, if_true, hl]
+  rw [if_neg (by omega)]
+  by_cases h5 : lo > n
+  · rw [if_pos h5]
+    exact ⟨b, rfl, hd, hk, hnl, hl, h1, h2, nl, lo, hi, hw, hnt, h3, h4⟩
+  · rw [if_neg h5, if_neg (by omega)]
+    exact ⟨_, rfl, hd, hk, hnl, hl, h1, h2, nl, n, hi, rfl, hnt, hn, h4⟩
+
+theorem lenUpper_wit {least most l : Nat} {b : Builder} {n : Int} (hI : KWit least most l b) (hn : (l : Int) ≤ n) :
+    ∃ b', stepLenUpper b n = .ok b' ∧ KWit least most l b' := by
+  obtain ⟨hd, hk, hnl, hl, h1, h2, nl, lo, hi, hw, hnt, h3, h4⟩ := hI
+  unfold stepLenUpper
+  rw [hw]
+  simp only [hk, if_true, hl]
+  rw [if_neg (by omega)]
+  by_cases h5 : hi < n
+  · rw [if_pos h5]
+    exact ⟨b, rfl, hd, hk, hnl, hl, h1, h2, nl, lo, hi, hw, hnt, h3, h4⟩
+  · rw [if_neg h5, if_neg (by omega)]
+    exact ⟨_, rfl, hd, hk, hnl, hl, h1, h2, nl, lo, n, rfl, hnt, h3, hn⟩
+
+section Any
+variable [EqOracle]
+
+theorem step_known_wit {least most l : Nat} {b : Builder} {c : RefineCall} (hI : KWit least most l b)
+    (hc : isLenOrNotNull c = true) (hden : den c (.coll l) = true) :
+    ∃ b', step b c = .ok b' ∧ KWit least most l b' := by
+  have hI' := hI
+  obtain ⟨hd, hk, hnl, hl, h1, h2, nl, lo, hi, hw, hnt, h3, h4⟩ := hI
+  have hu : b.wip ≠ .unref := by rw [hw]; simp
+  unfold step
+  rw [hd]
+  simp only [Bool.false_eq_true, if_false, hu]
+  cases c <;> simp [isLenOrNotNull, isLenCall] at hc
+  · -- NotNull
+    simp only [step1, stepNotNull, hk, hnl, Bool.and_false, Bool.false_eq_true, if_false]
+    have : ¬ b.wip.nullness = .t := by rw [hw]; simpa [Rfn.nullness] using hnt
+    rw [if_neg this]
+    exact ⟨_, rfl, hd, hk, hnl, hl, h1, h2, .f, lo, hi, by simp only [hw, setNull], by simp, h3, h4⟩
+  · rename_i n
+    simp only [den, decide_eq_true_eq] at hden
+    exact lenLower_wit hI' hden
+  · rename_i n
+    simp only [den, decide_eq_true_eq] at hden
+    exact lenUpper_wit hI' hden
+  · rename_i n
+    simp only [den, decide_eq_true_eq] at hden
+    simp only [step1]
+    obtain ⟨b1, e1, k1⟩ := lenLower_wit (n := n) hI' (by omega)
+    obtain ⟨b2, e2, k2⟩ := lenUpper_wit (n := n) k1 (by omega)
+    exact ⟨b2, by rw [e1]; simp only [Res.bind]; exact e2, k2⟩
+
+theorem run_known_wit {least most l : Nat} {cs : List RefineCall} : ∀ {b : Builder}, KWit least most l b →
+    cs.all isLenOrNotNull = true → cs.all (fun c => den c (.coll l)) = true →
+    ∃ b', run b cs = .ok b' ∧ KWit least most l b' := by
+  induction cs with
+  | nil => intro b hI _ _; exact ⟨b, rfl, hI⟩
+  | cons c cs ih =>
+    intro b hI hc hden
+    simp only [List.all_cons, Bool.and_eq_true] at hc hden
+    obtain ⟨b1, e1, k1⟩ := step_known_wit hI hc.1 hden.1
+    obtain ⟨b2, e2, k2⟩ := ih k1 hc.2 hden.2
+    exact ⟨b2, by simp only [run, e1, Res.bind]; exact e2, k2⟩
+
+/-- A chain of `NotNull()` and length constraints that some possible length of the known collection satisfies is
+accepted, and returns the receiver (marks restored). -/
+theorem refine_known_collection_accepts {v : Value} {cs : List RefineCall} {least most l : Nat}
+    (hl : knownLength v.unmark = .ok (least, most)) (hfit : (most : Int) ≤ maxInt)
+    (hm : v.unmark.v.isMarked = false)
+    (hc : cs.all isLenOrNotNull = true) (h1 : least ≤ l) (h2 : l ≤ most)
+    (hden : cs.all (fun c => den c (.coll l)) = true) : refine v cs = .ok (v.unmark.withMarks v.marks) := by
+  obtain ⟨f1, f2, f3, f4, f5, f6⟩ := knownLength_facts hl
+  have hi : init v = .ok ⟨v.unmark, v.marks, .coll .u 0 maxInt⟩ := by
+    unfold init
+    simp only [hm, Bool.false_eq_true, if_false]
+    cases hp : v.unmark.v <;> simp only [] <;> first
+      | exact absurd hp (f5 _)
+      | (rw [f4])
+      | (exfalso; revert hl; simp [knownLength, hp])
+  have hI : KWit least most l ⟨v.unmark, v.marks, .coll .u 0 maxInt⟩ :=
+    ⟨f3, f1, f2, hl, h1, h2, .u, 0, maxInt, rfl, by simp, by omega, by omega⟩
+  obtain ⟨b', e, k⟩ := run_known_wit hI hc hden
+  have hb := (run_base_any e).1
+  unfold refine
+  rw [hi]
+  simp only [Res.bind, e]
+  rw [newValue_known_any (by rw [hb.1]; exact f1), hb.1, hb.2]
+
+end Any
+
 /-- every possible length is a value the known collection stands for (`γV`) -/
 theorem γV_of_knownLength {u : Value} {least most : Nat} (h : knownLength u = .ok (least, most)) (l : Nat)
     (h1 : least ≤ l) (h2 : l ≤ most) : γV u (.coll l) = true := by
